@@ -9,6 +9,19 @@ TRUSTED_BASE = [
 ]
 
 CHECKS = {
+    "C01": {
+        "modules": ["PGV.Props.C01"],
+        "audits": ["PGV/Audit/C01.lean"],
+        "streams": ["size-exh", "size"],
+        "thorough_seeds": 4,
+        "exhaustive_note": "size-exh (thorough) enumerates all 256 int8 and all 256 uint8 values x 6 one-bound rules x every bound in [-130,260] and x {to,oto} x 149 bound pairs",
+        "assumptions": [
+            "integer bounds = the argument reads with strconv.Atoi (transcribed in Model.atoi); NaN has no measure (out of scope, reported)",
+            "float fields: the theorem needs |bound| < 2^53 (float64(bound) exact); beyond that the code rounds: known finding F-C01-e",
+            "rendering of floats in messages (strconv.FormatFloat) is supplied by the harness from the stdlib",
+        ],
+        "explanation": "C01_verdict: for every rule text whose key is one of the eight rules and whose argument reads as integer bounds, and every measurable value, the function bound to that key in the rule table writes a clause iff the measure is outside the stated set (all widths, all bounds, all values); streams size-exh / size compare whole error strings of Var/Struct/Map/Url with the model and judge the implementation's verdict against Spec.Size",
+    },
     "C09": {
         "modules": ["PGV.Props.C09"],
         "audits": ["PGV/Audit/C09.lean"],
@@ -38,6 +51,18 @@ CHECKS = {
 NOT_YET = {}
 
 MANIFEST_TEXT = {
+    "C01": {
+        "technique": "Lean 4 theorems (case analysis over kinds, exact integer/dyadic arithmetic) + differential correspondence incl. exhaustive 8-bit window",
+        "text": "Theorems for ALL rule texts, bounds and values (no width or size bound): C01_bound_verdict (ge/gt/le/lt), C01_range_verdict (to/oto, min>max included), "
+                "C01_eq_verdict (eq/noeq) and their union over the rule table C01_verdict: the function bound to the rule's key writes a clause iff the measure (rune count, "
+                "numeric value, slice length) lies outside the stated set; C01_width_signedness_indep: the verdict depends on the value only through its measure. Floats: under "
+                "|bound| < 2^53; outside it the statement is false of the code (F_C01_e_witness, known finding). Tie: size-exh (all int8/uint8 values x bound window, exhaustive in "
+                "the thorough tier, strided 1/8 in quick) and size (boundary-dense random over all kinds, multi-byte and invalid UTF-8 strings, min>max) through Var/Struct/Map/Url; "
+                "the implementation's whole error string is compared with the model and its verdict with the spec.",
+        "note": "Trusted: Lean kernel; Spec.Size (measure/inSet, 60 lines) as the reading of the property; Model.atoi and runeCount as transcriptions of strconv.Atoi / UTF-8 decoding; "
+                "parseValidNameKV as the reading of rule text (its own correctness is C14); differential testing bounds the model=code tie. Entry-point independence is observed by the "
+                "streams (six carriers) and is C18's theorem.",
+    },
     "C09": {
         "technique": "Lean 4 invariant + refinement theorems (induction over op sequences) + differential correspondence incl. bounded-exhaustive enumeration",
         "text": "Theorems for EVERY operation sequence and EVERY capacity: the two-structure representation invariant holds in all reachable states (C09_inv), "
